@@ -51,7 +51,7 @@ func newSizeConn(t *verifPConn, pmtu, kind int) *Conn {
 // path MTU and carries at most 16384 bytes of plaintext; PMTU arbitrary (0 = default 1400, else 96..20000),
 // payload length arbitrary in 1..maxPayload (symbolic), cipher none / GCM / CBC.
 //
-//verif:harness props=C15 paths=5000 reach=written
+//verif:harness props=C15,C06 paths=5000 reach=written
 func VerifHarness_C15_size() {
 	pmtu := verifNondetInt("pmtu")
 	verifAssume(pmtu == 0 || (pmtu >= 96 && pmtu <= 20000)) // below 77 a CBC record cannot carry a single byte
@@ -61,6 +61,9 @@ func VerifHarness_C15_size() {
 	c := newSizeConn(t, pmtu, kind)
 	mp := c.maxPayloadSizeForWrite(recordTypeApplicationData)
 	verifAssert("C15.size.maxPayloadWithinRecordLimit", mp >= 1 && mp <= 16384)
+	// C06: no record on the wire carries more than 16384 bytes of plaintext — on the datagram stack too, whatever
+	// path MTU is configured
+	verifAssert("C06.dtlcp.maxPayloadWithinRecordLimit", mp >= 1 && mp <= 16384)
 	n := verifNondetInt("len")
 	verifAssume(n >= 1 && n <= mp)
 	data := verifNondetBytes("data", n)
